@@ -41,11 +41,16 @@ def impl_fn_match(src, m, impl_pat, fn_name):
     return match_arms(body, mbody, a + 1, b)
 
 
+def nocomment(s):
+    return re.sub(r"//[^\n]*", "", s)
+
+
 def table(arms, value_re, what):
     """[(names, value)] + default"""
     out = {}
     default = None
     for pat, body in arms:
+        pat = nocomment(pat)
         mv = re.fullmatch(value_re, body.strip())
         if not mv:
             raise ExtractError("%s: unrecognised arm value %r" % (what, body[:50]))
@@ -74,11 +79,12 @@ def extract():
     src = read(GE)
     m = mask(src)
     info["assoc_variants"] = [v for v, _ in enum_variants(GE, "Associativity")]
-    if info["assoc_variants"] != ["Left", "Both", "Right"]:
+    if info["assoc_variants"][:3] != ["Left", "Both", "Right"] or not all(re.fullmatch(r"[A-Za-z]+", v) for v in info["assoc_variants"]):
         raise ExtractError("enum Associativity changed: %s" % info["assoc_variants"])
+    AV = "|".join(info["assoc_variants"])
     # BinaryOperator
     bs, bs_d = table(impl_fn_match(src, m, r"impl\s+SQLExpression\s+for\s+BinaryOperator\b", "binding_strength"), r"(\d+)", "BinaryOperator::binding_strength")
-    ba, ba_d = table(impl_fn_match(src, m, r"impl\s+SQLExpression\s+for\s+BinaryOperator\b", "associativity"), r"Associativity::(Left|Both|Right)", "BinaryOperator::associativity")
+    ba, ba_d = table(impl_fn_match(src, m, r"impl\s+SQLExpression\s+for\s+BinaryOperator\b", "associativity"), r"Associativity::(%s)" % AV, "BinaryOperator::associativity")
     us, us_d = table(impl_fn_match(src, m, r"impl\s+SQLExpression\s+for\s+UnaryOperator\b", "binding_strength"), r"(\d+)", "UnaryOperator::binding_strength")
     # trait default associativity (UnaryOperator does not override it)
     ts, te = block_after(src, m, r"\btrait\s+SQLExpression\b")
@@ -91,7 +97,7 @@ def extract():
     arms = impl_fn_match(src, m, r"impl\s+SQLExpression\s+for\s+sql_ast::Expr\b", "binding_strength")
     ex = {}
     for pat, body in arms:
-        p = squeeze(pat)
+        p = squeeze(nocomment(pat))
         b = body.strip()
         if p == "sql_ast::Expr::BinaryOp{op,..}" and squeeze(b) == "op.binding_strength()":
             ex["binary"] = True
@@ -101,6 +107,13 @@ def extract():
             ex["like"] = int(b)
         elif p == "sql_ast::Expr::IsNull(_)|sql_ast::Expr::IsNotNull(_)" and re.fullmatch(r"\d+", b):
             ex["isnull"] = int(b)
+        elif p == "sql_ast::Expr::Between{..}" and re.fullmatch(r"\d+", b):
+            ex["between"] = int(b)
+        elif p == "sql_ast::Expr::Value(v)ifmatches!(&v.value,Value::Number(n,_)ifn.starts_with('-'))":
+            mu = re.fullmatch(r"\{UnaryOperator::([A-Za-z]+)\.binding_strength\(\)\}", squeeze(b))
+            if not mu:
+                raise ExtractError("negative-number arm: unrecognised value %r" % b[:60])
+            ex["negative_number_like"] = mu.group(1)
         elif p == "_" and re.fullmatch(r"\d+", b):
             ex["default"] = int(b)
         else:
@@ -183,7 +196,7 @@ def extract():
     # process_null
     ps, pe = block_after(src, m, r"\bfn\s+process_null\s*\([^{]*\{")
     sq = squeeze(m[ps:pe])
-    calls = re.findall(r"translate_operand\(operand\.clone\(\),(true|false),strength,Associativity::(Left|Both|Right),ctx\)", sq)
+    calls = re.findall(r"translate_operand\(operand\.clone\(\),(true|false),strength,Associativity::(%s),ctx\)" % AV, sq)
     if len(calls) != 2 or sq.count("translate_operand(") != 2 or calls[0] != calls[1]:
         raise ExtractError("process_null: translate_operand calls changed")
     if "letstrength=sql_ast::Expr::IsNull(" not in sq or "letstrength=sql_ast::Expr::IsNotNull(" not in sq:
@@ -194,7 +207,7 @@ def extract():
     # try_into_between
     ts_, te_ = block_after(src, m, r"\bfn\s+try_into_between\s*\([^{]*\{")
     sq = squeeze(m[ts_:te_])
-    calls = re.findall(r"translate_operand\((a_l|a_r|b_r),(true|false),(\d+),Associativity::(Left|Both|Right),ctx\)", sq)
+    calls = re.findall(r"translate_operand\((a_l|a_r|b_r),(true|false),(\d+),Associativity::(%s),ctx\)" % AV, sq)
     if [c[0] for c in calls] != ["a_l", "a_r", "b_r"] or sq.count("translate_operand(") != 3:
         raise ExtractError("try_into_between: translate_operand calls changed")
     if 'ifname=="std.and"' not in squeeze(src[ts_:te_]) or 'ifa_name=="std.gte"&&b_name=="std.lte"' not in squeeze(src[ts_:te_]) or "ifa_l==b_l{" not in sq:
@@ -225,7 +238,7 @@ def extract():
     s2, e2 = block_after(osrc, om, r"\bfn\s+translate_operator\s*\([^{]*\{")
     sq = squeeze(om[s2:e2])
     md = re.search(r"letparent_binding_strength=binding_strength\.unwrap_or\((\d+)\);", sq)
-    mc = re.search(r"letarg=translate_operand\(arg,(true|false),required_strength,super::gen_expr::Associativity::(Left|Both|Right),ctx,\)\?;", sq)
+    mc = re.search(r"letarg=translate_operand\(arg,(true|false),required_strength,super::gen_expr::Associativity::(%s),ctx,\)\?;" % AV, sq)
     mr = "letrequired_strength=format.as_ref().and_then(|f|f.parse::<i32>().ok()).unwrap_or(parent_binding_strength);" in sq
     if not (md and mc and mr):
         raise ExtractError("translate_operator changed shape")
@@ -251,7 +264,7 @@ def generate():
     B = lambda s: "true" if s == "true" else "false"
     v = "(* generated from /repo/prqlc/prqlc/src/sql/{gen_expr,operators}.rs on every run by vplib/translate/gen_sql_strength.py -- do not edit *)\n"
     v += "From Coq Require Import List NArith.\nImport ListNotations.\n\n"
-    v += "Inductive assoc3 := A_Left | A_Both | A_Right.\n"
+    v += "Inductive assoc3 := " + " | ".join("A_" + x for x in info["assoc_variants"]) + ".\n"
     v += "Inductive sqlbin := " + " | ".join("SB_" + n for n in info["bin_names"]) + ".\n"
     v += "Definition sqlbin_all : list sqlbin := [" + "; ".join("SB_" + n for n in info["bin_names"]) + "].\n"
     v += "Definition sqlbin_idx (o : sqlbin) : nat := match o with " + " | ".join("SB_%s => %d" % (n, i) for i, n in enumerate(info["bin_names"])) + " end.\n"
@@ -264,6 +277,15 @@ def generate():
     v += "Definition sqlun_strength_default : nat := %d.\n" % info["un_strength_default"]
     v += "Definition expr_strength_like : nat := %d.\nDefinition expr_strength_isnull : nat := %d.\nDefinition expr_strength_default : nat := %d.\n" % (
         info["expr"]["like"], info["expr"]["isnull"], info["expr"]["default"])
+    v += "Definition expr_strength_between : nat := %d. (* %s *)\n" % (
+        info["expr"].get("between", info["expr"]["default"]), "its own arm" if "between" in info["expr"] else "falls under the default arm")
+    nn = info["expr"].get("negative_number_like")
+    if nn is not None and nn not in info["un_names"]:
+        raise_msg = "negative-number arm refers to unknown UnaryOperator::%s" % nn
+        gen_write("GenSqlStrength", "(* EXTRACTION FAILED: %s *)\nDefinition gen_sql_strength_extraction_failed := tt.\n" % raise_msg)
+        return {"error": raise_msg}
+    v += "(* a numeric literal whose text starts with `-`: Some u = it has the strength of unary operator u, None = default *)\n"
+    v += "Definition negative_number_strength : option nat := %s.\n" % ("None" if nn is None else "Some (sqlun_strength SU_%s)" % nn)
     v += "(* operator_from_name: RQ operator name -> sqlparser BinaryOperator *)\n"
     v += "Definition operator_from_name : list (list N * sqlbin) :=\n  ([ " + ";\n    ".join("(%s, SB_%s) (* %s *)" % (codes(n), o, n) for n, o in info["operator_from_name"]) + " ])%N.\n"
     v += "(* constants passed to translate_operand: (is_left, required strength, associativity) *)\n"
